@@ -17,13 +17,15 @@ Definition ordered (ev : list event) : Prop :=
 (* nothing internal is left to do: no queued remove-match task, no undelivered call, no waiter to wake, no reader to drop;
    handlers may still be running (they end when their method returns) *)
 Definition settled (s : st) : Prop :=
-  removers s = 0 /\ queued s = [] /\ (alive s = false -> waiters s = [] /\ reader s = false).
+  removers s = 0 /\ zombies s = [] /\ queued s = [] /\ (alive s = false -> waiters s = [] /\ reader s = false).
 
 (* ---------------------------------------------------------------- the oracle: an independent count *)
 (* ops of the harness *)
 Inductive op :=
   | ONew (n src : nat) (k : hkind) | ODrop (n : nat) | OGraceful (n : nat) | OClose (n : nat)
-  | OCall (k : nat) (fast : bool) | ORelease (k : nat).
+  | OCall (k : nat) (fast : bool) | ORelease (k : nat)
+  | OAsyncDrop (n : nat)
+  | OCacheStart (n : nat) | OCacheReady (n : nat).   (* what a proxy's property cache does is invisible to the count: the proxy owns it *)
 
 Record acc := {
   a_h : list (nat * hkind);     (* live handles *)
@@ -59,6 +61,13 @@ Definition a_step (o : op) (a : acc) : acc :=
   | OCall k fast =>
       if a_closed a || fast || mem_n k (a_rel a) then a
       else {| a_h := a_h a; a_fl := a_fl a ++ [k]; a_rel := a_rel a; a_gs := a_gs a; a_closed := a_closed a |}
+  | OAsyncDrop n =>
+      match lookup n (a_h a) with
+      | Some HStreamAll | Some (HStreamRule _) | Some HSignals =>
+          {| a_h := remove_h n (a_h a); a_fl := a_fl a; a_rel := a_rel a; a_gs := a_gs a; a_closed := a_closed a |}
+      | _ => a
+      end
+  | OCacheStart _ | OCacheReady _ => a
   | ORelease k => {| a_h := a_h a; a_fl := remove_n k (a_fl a); a_rel := k :: a_rel a; a_gs := a_gs a; a_closed := a_closed a |}
   end.
 
